@@ -49,6 +49,7 @@ def c02(ck, F, tier):
     guarded(ck, um.table_history, F)
     guarded(ck, um.wmc_stacks, F)
     guarded(ck, um.arms_pair, F)
+    guarded(ck, um.replay_pure, F)
 
 
 def c03(ck, F, tier):
@@ -113,6 +114,7 @@ def c23(ck, F, tier):
     guarded(ck, rn.error_tables, F, T)
     ck.rule("CHAR-UNITS", "lexer positions advance by character counts, never by byte lengths of localized strings", floor=10)
     guarded(ck, rn.char_units, F)
+    guarded(ck, rn.error_window, F)
 
 
 def c26(ck, F, tier):
@@ -549,6 +551,7 @@ def c06(ck, F, tier):
     guarded(ck, re_.table_ops, F)
     guarded(ck, re_.table_cmp, F)
     guarded(ck, re_.err_order, F)
+    guarded(ck, re_.truthiness_exact, F)
 
 
 def c07(ck, F, tier):
